@@ -11,6 +11,14 @@ CHECKS = {
  "C02": ("model_checking", "Same engine over MultiProgress histories: order defined by add/insert*/remove re-implemented on a plain sequence, every member once, below the log, static blocks whole or gone; exhaustive depth-5 families plus random walks of depth 30.", "4 C02", SCREEN_NOTE,
          "TLA+ contract (Screen.tla) + TLC-generated histories replayed on the code + TLC trace monitor"),
 }
+T = "TLA+ contract (Screen.tla) + TLC-generated histories replayed on the code + TLC trace monitor"
+CHECKS["C03"] = ("model_checking", "Screen engine over histories interleaving println/suspend with bar life-cycles, single bars and MultiProgress, limiters exhausted by bursts at a frozen instant, every finish/drop order of up to 3 bars; LogOK: every emitted line once, in order, above the region after every call.", "4 C03", SCREEN_NOTE, T)
+CHECKS["C04"] = ("model_checking", "Screen engine over every finish path, drop and iterator exhaustion after bursts that empty both limiters; ForcedOK (a final frame is painted), ScreenOK (it shows position=length / unchanged, the message, nothing for clearing variants), FinalOK (static text is the final state), GetOK (is_finished, position).", "4 C04", SCREEN_NOTE, T)
+CHECKS["C16"] = ("model_checking", "Screen engine over every order of with_tab_width/set_tab_width, with_style/set_style, set_message/set_prefix/finish_with_message with tab widths 0,1,4,8 and tabs in message, prefix, template literal and custom-key output; NoTab, ScreenOK (tabs are tab-width spaces), GetOK (message()/prefix() expanded).", "4 C16", SCREEN_NOTE, T)
+CHECKS["C19"] = ("model_checking", "Screen engine on terminals from 1x1, line widths around multiples of the width, bar sets growing and shrinking past the height; rows compared against scrollback+viewport with the terminal's own wrapping rule and the leading lines that fit (Cut).", "4 C19", SCREEN_NOTE, T)
+CHECKS["C06"] = ("model_checking", "Screen engine on the four ways of being hidden (hidden target, Term over a pipe, member of a hidden MultiProgress, removed member): SilentOK (no TermLike output call, no byte on the pipe) on every call of every history up to depth 4-5, GetOK (getters equal the contract's logical state, the same a visible bar is held to).", "4 C06", SCREEN_NOTE, T)
+CHECKS["C07"] = ("model_checking", "TLC enumerates every history of depth 3-4 over the u64 boundary arguments (plus random depth 12); the real getters, fraction() and the rendered {pos} {len} {percent} are checked after every call against Logical.tla on exact multi-limb u64 arithmetic (U64.tla). Sequential clause; the concurrent-increment clause is covered by C08's atomic-step model when built.", "4 C07", "Trusted base: TLC, U64.tla limb arithmetic (sanity-checked against known values), harness limb encoding.", "TLA+ contract on exact u64 limbs + TLC-generated histories replayed on the code + TLC trace monitor")
+CHECKS["C18"] = ("fault_enumeration", "Every history of the family alphabets x every fault index k in {1,2,3,5,8}/{1,2,4,7} x {once, sticky}: the k-th terminal call after the injection point fails. NoPanic (process aborts included, each history runs in a forked child), GetOK (logical state as without the fault; later calls on the same and sibling bars work), ErrReported.", "4 C18", SCREEN_NOTE, "TLC-enumerated histories with injected TermLike failures replayed on the code; TLC trace monitor (fault mode)")
 def main():
     hooks = {"guard": "indicatif_verif", "enable": "harness/.cargo/config.toml passes --cfg indicatif_verif to rustc for the path dependency on /repo",
              "baseline_off_cmd": "cd /repo && cargo test --workspace --no-fail-fast --offline", "source_commits": [], "add_only": True}
